@@ -110,7 +110,8 @@ LEVEL = {
     ),
     "C16": dict(
         text="Theorems: a frame rendered at gain g is the gain-1 frame scaled sample by sample with identical vocoder state, for either filter family; by induction "
-             "the whole rendering scales by g; get_volume inverts set_volume given ln∘exp = id; dB add; set_volume touches no other setting. Tied to the code at "
+             "the whole rendering scales by g, and so does Engine::synthesize of the pipeline model (synthesize_gain, synthesize_volume_db: nothing before the "
+             "vocoder reads the volume); get_volume inverts set_volume given ln∘exp = id; dB add; set_volume touches no other setting. Tied to the code at "
              "stage level (both families) and through Engine::synthesize at v dB vs 0 dB (1e-12 relative), with getter read-back.",
         note="Trusted: Lean kernel; axioms ⊆ {propext, Classical.choice, Quot.sound}; exp/ln laws as hypotheses; f64 rounding of exp(v*DB) test-level.",
     ),
@@ -145,7 +146,8 @@ LEVEL = {
              "mask, the durations and every stream other than log-F0 are independent of h in the pipeline model. Trajectory level (trajectory_shift): adding h to every static mean adds exactly h to every frame "
              "of the maximum-likelihood trajectory when the dynamic windows sum to zero (uniqueness of the normal-equation solution), and the same through the whole GV stage — conv_gv and the five Newton-like steps with "
              "their adaptive step size (trajectory_shift_with_gv: the objective changes by an iterate-independent constant, so the step decisions agree). "
-             "Capstone halftone_moves_the_trajectory: MlpgAdjust::create after apply_additional_half_tone(h) equals create plus h*ln2/12 on every voiced frame "
+             "Pipeline level (pipeline_transposes_only_f0): for everything Engine::generator hands to the vocoder the durations, spectrum and low-pass "
+             "trajectories are unchanged and log-F0 moves by h*ln2/12 on voiced frames. Capstone halftone_moves_the_trajectory: MlpgAdjust::create after apply_additional_half_tone(h) equals create plus h*ln2/12 on every voiced frame "
              "(NODATA and frame count unchanged) while no state mean is clamped. That log-F0 of the real engine moves by exactly h*ln2/12 is additionally decided on every run through the hook (two runs per case, 1e-6), as is the wiring in Engine::generator.",
         note="Trusted: as C11; shift-equivariance of MLPG and of the GV iteration proved over an ordered field; the f64 implementation is compared at 1e-6.",
     ),
